@@ -62,7 +62,8 @@ class Statements(Part):
     floors = {"multi2": 0.25, "multi3": 0.08}
 
     def strategy(self, tier):
-        return tstrat.templates(depth=3 if tier == "quick" else 4)
+        return tstrat.templates(depth=3 if tier == "quick" else 4,
+                                local_probes=True)
 
     def source(self, case):
         return tmodel.serialize(case["nodes"]).text()
@@ -137,6 +138,107 @@ class Statements(Part):
             yield tmodel.serialize(nodes).text()
 
 
+# -- the same statement text on nested elements ----------------------------
+
+SHADOW_NAMES = ["l0", "l1", "i0"]
+SHADOW_DEFINES = [
+    [["local", ["l0"], ["const", "1"]]],
+    [["local", ["l0"], ["const", "2"]]],
+    [["local", ["l0"], ["var", "s0"]]],
+    [["local", ["l0"], ["const", "1"]], ["local", ["l1"], ["var", "l0"]]],
+    [["local", ["l1"], ["const", "'b'"]]],
+    [["local", ["l0", "l1"], ["const", "(1, 2)"]]],
+    [["local", ["i0"], ["const", "'d'"]]],
+]
+SHADOW_REPEATS = [
+    [["i0"], ["const", "(1, 2)"]],
+    [["i0"], ["var", "q0"]],
+    [["i0"], ["const", "'ab'"]],
+    [["l0"], ["const", "(1, 2)"]],
+    [["i0", "l1"], ["const", "[(1, 2), (3, 4)]"]],
+]
+
+
+@st.composite
+def shadow_templates(draw, depth):
+    """Chains of nested elements whose tal:define / tal:repeat statements
+    are taken from a small pool of texts - so that the very same text sits
+    on an element and on one of its descendants - with every name probed
+    before, inside and after each element.  (No global definitions: a
+    global made under a local of the same name is C05's known finding K4.)"""
+    import copy
+
+    def probes():
+        names = draw(st.lists(st.sampled_from(SHADOW_NAMES), min_size=1,
+                              max_size=3, unique=True))
+        parts = []
+        for n in names:
+            parts.append(["lit", "[" + n + "="])
+            parts.append(["interp", ["pipe", [["var", n],
+                                              ["const", "'-'"]]]])
+            parts.append(["lit", "]"])
+        return ["text", parts]
+
+    def elem(level):
+        stmts = {}
+        c = draw(st.integers(0, 3))
+        if c in (0, 2):
+            stmts["define"] = copy.deepcopy(
+                draw(st.sampled_from(SHADOW_DEFINES)))
+        if c in (1, 2):
+            stmts["repeat"] = copy.deepcopy(
+                draw(st.sampled_from(SHADOW_REPEATS)))
+        if c == 3:
+            stmts["condition"] = ["const", draw(st.sampled_from(
+                ["True", "True", "False"]))]
+        kids = [probes()]
+        if level < depth:
+            for _ in range(draw(st.integers(1, 2))):
+                kids.append(["elem", elem(level + 1)])
+                kids.append(probes())
+        return {"name": draw(st.sampled_from(["div", "p", "b"])),
+                "attrs": [], "stmts": stmts, "children": kids,
+                "order": [0], "close_space": ""}
+
+    nodes = [probes(), ["elem", elem(1)], probes()]
+    if draw(st.booleans()):
+        nodes += [["elem", elem(2)], probes()]
+    return {"nodes": nodes, "bindings": draw(tstrat.bindings_strategy())}
+
+
+def same_text_nested(nodes, inherited=()):
+    """Some statement text of an element occurs again below it."""
+    for n in nodes:
+        if n[0] != "elem":
+            continue
+        mine = [repr(n[1]["stmts"][k]) for k in ("define", "repeat")
+                if k in n[1]["stmts"]]
+        if any(m in inherited for m in mine):
+            return True
+        if same_text_nested(n[1]["children"], tuple(inherited) + tuple(mine)):
+            return True
+    return False
+
+
+class Shadow(Statements):
+    name = "shadow"
+    examples = {"quick": 500, "thorough": 15000}
+    floors = {"same_text_nested": 0.2}
+
+    def strategy(self, tier):
+        return shadow_templates(3 if tier == "quick" else 4)
+
+    def nontrivial(self, case):
+        return same_text_nested(case["nodes"])
+
+    def labels(self, case):
+        if same_text_nested(case["nodes"]):
+            yield "same_text_nested"
+
+    def permutations(self, case, limit=2):
+        return ()
+
+
 CHECK = Check(
     "C01", "exploration",
     rule=("abstract templates (depth <= 3 quick / 4 thorough, <= 14 elements) "
@@ -144,8 +246,11 @@ CHECK = Check(
           "expressions over bound variables of every value class; "
           "non-trivial = some element carries >= 2 statements; distinct by "
           "sha1 of the case; each case is also rendered with 2 other written "
-          "orders of its statement attributes"),
-    parts=[Statements()],
+          "orders of its statement attributes; part shadow: chains of nested "
+          "elements with tal:define / tal:repeat texts from a small pool and "
+          "name probes around every element, non-trivial = a statement text "
+          "occurs again on a descendant"),
+    parts=[Statements(), Shadow()],
     assumptions=[
         "inside the guard group the implementation's order and the order "
         "printed in docs/reference.rst are both accepted; tal:repeat is not "
